@@ -620,7 +620,7 @@ def write_evidence(prop, tier, base_seed, agg, violations, wall, extra):
     }
     d = os.path.join(OUT, "evidence")
     os.makedirs(d, exist_ok=True)
-    path = os.path.join(d, "%s.json" % prop.ID)
+    path = os.path.join(d, "%s.json" % os.environ.get("SIMTRAITS_EVIDENCE_NAME", prop.ID))
     tmp = path + ".tmp"
     with open(tmp, "w") as f:
         json.dump(ev, f, indent=1, sort_keys=True, default=_js)
